@@ -54,6 +54,11 @@ def models():
     c = m.problem.Constraint(m.reactions.v1.flux_expression + m.reactions.EX_B.flux_expression, lb=-3, ub=6, name="user_ineq")
     m.add_cons_vars([c])
     out.append(("user_inequality", m))
+    m = base("ineq0")
+    # a one-sided inequality whose finite bound is exactly zero
+    c = m.problem.Constraint(m.reactions.v1.flux_expression - 3 * m.reactions.v2.flux_expression, lb=0, name="user_ineq0")
+    m.add_cons_vars([c])
+    out.append(("user_inequality_zero_bound", m))
     m = bigger("eq")
     c = m.problem.Constraint(m.reactions.v1.flux_expression - 2 * m.reactions.v2.flux_expression, lb=1, ub=1, name="user_eq")
     m.add_cons_vars([c])
@@ -320,6 +325,38 @@ def menus_task(mname, model, stats, procs_menu):
                     if not ok and near > 5e-7:
                         bad("infeasible sample", f"row {row}")
                         break
+    # sampler objects: repeated sample() calls (also with n not a multiple of the process count)
+    from cobra.sampling import ACHRSampler, OptGPSampler
+
+    for method, p, n in (("achr", 1, 3), ("optgp", 1, 3)) + tuple(("optgp", pp, 3) for pp in procs_menu if pp > 1):
+        stats["menu_calls"] = stats.get("menu_calls", 0) + 1
+        case = {"model": mname, "menu": [method, "object", n, 2, p]}
+        try:
+            with warnings.catch_warnings():
+                warnings.simplefilter("ignore")
+                s = ACHRSampler(model, thinning=2, seed=7) if method == "achr" else OptGPSampler(model, processes=p, thinning=2, seed=7)
+                frames = [s.sample(n), s.sample(n), s.sample(n, fluxes=False)]
+        except RuntimeError as exc:
+            if "Cannot escape sampling region" in str(exc):
+                viol.append(({"sampler": method, "model": mname, "check": "repeated sample() raised RuntimeError", "space": "flux",
+                              "processes": p}, case, repr(exc)))
+            continue
+        except Exception as exc:
+            viol.append(({"sampler": method, "model": mname, "check": "repeated sample() raised " + type(exc).__name__,
+                          "space": "flux", "processes": p}, case, repr(exc)))
+            continue
+        names = [v.name for v in model.variables]
+        fwd = [names.index(r.id) for r in model.reactions]
+        rev = [names.index(r.reverse_id) for r in model.reactions]
+        for k, df in enumerate(frames):
+            rows = df.values if k < 2 else df.values[:, fwd] - df.values[:, rev]
+            for row in rows:
+                ok, near = independent_check(data, row, s.feasibility_tol, s.bounds_tol)
+                stats["points"] = stats.get("points", 0) + 1
+                if not ok and near > 0.5 * min(s.feasibility_tol, s.bounds_tol):
+                    viol.append(({"sampler": method, "model": mname, "check": "infeasible sample in call %d" % (k + 1),
+                                  "space": "flux" if k < 2 else "variables", "processes": p}, case, f"row {row}"))
+                    break
     after = observe.python_view(model), observe.lp_canonical(observe.raw_lp(model), ordered=True)
     if after != before:
         d = observe.diff(before[0], after[0])
@@ -374,7 +411,7 @@ def explore(ctx):
         "traces_validated_against_impl": stats.get("paths", 0) + stats.get("menu_calls", 0),
         "evaluations": stats.get("paths", 0) + stats.get("menu_calls", 0),
         "distinct_nontrivial": stats.get("paths", 0),
-        "rule": "5 models (homogeneous with cycle, forced flux, fixed flux, user inequality, user equality) x {ACHR, OptGP}: "
+        "rule": "6 models (homogeneous with cycle, forced flux, fixed flux, user inequality, one-sided inequality with zero bound, user equality) x {ACHR, OptGP}: "
                 "every answer sequence of the random source (all randint values x uniform menu {lo, lo+eps, mid, 3/4, hi-eps}) "
                 "to depth 2 and depth %d with <=%d non-default answers, alternating reaction and variable space; every point "
                 "checked against S v = 0, bounds and user constraints taken from the original model; finite menus seeds "
